@@ -749,6 +749,18 @@ class Interp:
 
     p_unstack = p_split
 
+    def p_fft(self, ins, params, eqn):
+        """complex forward / inverse DFT over the trailing len(fft_lengths) axes, written out (exact twiddles for N in 1,2,4)"""
+        from .dft import dft_axes
+        ft = params["fft_type"]
+        kind = int(getattr(ft, "value", ft))
+        if kind not in (0, 1):
+            raise NotEncodable("real-to-complex / complex-to-real FFT")
+        a = _asobj(ins[0])
+        nax = len(params["fft_lengths"])
+        axes = tuple(range(a.ndim - nax, a.ndim))
+        return [dft_axes(a, axes, inverse=(kind == 1))]
+
     def p_debug_callback(self, ins, params, eqn):
         """host callbacks (logging, conditional_raise) have no results: no-ops here; the symbolic inputs are kept for harnesses"""
         self.callbacks.append(ins)
